@@ -10,13 +10,27 @@ import signal
 import traceback
 
 
+def die_with_parent():
+    """PR_SET_PDEATHSIG(SIGKILL): no orphaned simulation keeps burning CPU after its parent is gone."""
+    try:
+        import ctypes
+
+        ctypes.CDLL(None, use_errno=True).prctl(1, int(signal.SIGKILL), 0, 0, 0)
+    except Exception:  # noqa: BLE001
+        pass
+
+
 def fork_call(fn, *args):
     r, w = os.pipe()
+    ppid = os.getpid()
     pid = os.fork()
     if pid == 0:
         code = 0
         try:
             os.close(r)
+            die_with_parent()
+            if os.getppid() != ppid:
+                os._exit(4)
             try:
                 res = {"ok": fn(*args)}
             except BaseException as e:  # noqa: BLE001
